@@ -615,6 +615,7 @@ fn check_hash(
 		}
 	}
 	let mut found: HashMap<u16, u32> = HashMap::new();
+	let mut found_at: HashMap<u16, Vec<(u8, u64, usize, u64)>> = HashMap::new();
 	let mut root_children: Vec<(u16, Vec<u8>, Vec<u64>)> = Vec::new();
 	let indexes = std::mem::take(&mut img.indexes);
 	for (bits, entries) in indexes.iter() {
@@ -681,6 +682,7 @@ fn check_hash(
 			}
 			if let Some((id, val, count)) = known {
 				*found.entry(*id).or_insert(0) += 1;
+				found_at.entry(*id).or_default().push((*bits, *chunk, *_slot, addr));
 				match val {
 					Some(v) =>
 						if &d.value != v {
@@ -708,7 +710,7 @@ fn check_hash(
 			match found.get(id).cloned().unwrap_or(0) {
 				1 => {},
 				0 => lfail!("layout-key-not-in-index", "col {col} key id {id}: live in the model but no valid index entry resolves to it"),
-				n => lfail!("layout-key-duplicated", "col {col} key id {id}: {n} valid index entries"),
+				n => lfail!("layout-key-duplicated", "col {col} key id {id}: {n} valid index entries (index bits, chunk, slot, address): {:x?}", found_at.get(id)),
 			}
 		}
 	}
